@@ -111,6 +111,7 @@ type monitors struct {
 	nCommitted int
 	nPublished int
 	failures   []string
+	tampered   bool // object storage was tampered with: C02/C03/C04 speak about untampered histories
 	checks     map[string]int
 }
 
@@ -165,6 +166,9 @@ func (m *monitors) published(w *world, data []byte) {
 }
 
 func (m *monitors) discarded(w *world, key string) {
+	if m.tampered {
+		return
+	}
 	m.checks["C03.discard"]++
 	if !strings.HasPrefix(key, "staging/") {
 		m.fail("C04 discarded a non-staging object %q", key)
@@ -217,6 +221,9 @@ func (m *monitors) readLeaves(w *world, size int64) ([]*sunlight.LogEntry, strin
 
 // audit: object storage is a complete, exact rendering of the tree of checkpoint t (C04)
 func (m *monitors) audit(w *world, t cpTuple, when string) {
+	if m.tampered {
+		return
+	}
 	m.checks["C04.audit"]++
 	leaves, why := m.readLeaves(w, t.size)
 	if why != "" {
@@ -303,6 +310,9 @@ func (m *monitors) final(w *world) {
 
 // ack: the acknowledged entry is in the published tree (C02); called with w.mu held
 func (m *monitors) ack(w *world, e *ctlog.PendingLogEntry, idx, ts int64) {
+	if m.tampered {
+		return
+	}
 	m.checks["C02.ack"]++
 	o, ok := w.objects["checkpoint"]
 	if !ok {
